@@ -28,6 +28,7 @@ FIXES = [
     ("fixed-C13-literal-null-argument", "C13", "hook_invocations_differ", "literal null argument runs"),
     ("fixed-C13-hidden-object-abstract", "C13", "", "nulled by its type's output hooks"),
     ("fixed-C16-shared-error-path", "C16", "differs_from_fresh_engine", "own error path list"),
+    ("fixed-C18-operation-without-root-type", "C18", "no root type", "has no root type in the schema"),
     ("fixed-C06-subscription-root-repeated", "C06", "valid_request_refused", "single root field several times"),
 ]
 
